@@ -100,7 +100,15 @@ class SigmaConversionError(SigmaError):
         super().__init__(*args, source=source, **kwargs)
 
     def __str__(self) -> str:
-        return super().__str__() + " in rule " + str(self.rule)
+        # The rule is named by title and identifier. Its repr contains sets, which are printed in
+        # hash order, and detections added under randomly drawn internal names.
+        title = getattr(self.rule, "title", None)
+        rule_id = getattr(self.rule, "id", None)
+        return (
+            super().__str__()
+            + f" in rule '{title}'"
+            + (f" ({rule_id})" if rule_id is not None else "")
+        )
 
 
 class SigmaDetectionError(SigmaError):
